@@ -657,7 +657,11 @@ def _exec_match(op):
         macros=list(op["macros"]) if op.get("macros") else None,
     )
     try:
-        value = MasterOfPuppets(match_config=cfg).perform_matching()
+        if op.get("compile_only"):
+            # a complete *compilation* that is never matched (the object is dropped)
+            value = "regex:" + str(MasterOfPuppets(match_config=cfg).regex_rule)
+        else:
+            value = MasterOfPuppets(match_config=cfg).perform_matching()
     except BaseException as e:  # noqa: BLE001 - every way of not returning is an outcome
         return ["exc", type(e).__name__, SIM.norm(str(e))[:300]]
     if isinstance(value, (bool, str)) or value is None:
